@@ -1,3 +1,4 @@
+import Vet.Props.C17Heal
 import Vet.Props.C17
 #print axioms Vet.C17_candidate_connects
 #print axioms Vet.C17_candidate_connects_git
@@ -7,3 +8,7 @@ import Vet.Props.C17
 #print axioms Vet.C17_certify_criteria
 #print axioms Vet.C17_dedup_keeps_twin
 #print axioms Vet.C17_fixed_dedup
+#print axioms Vet.certChain_extends
+#print axioms Vet.C17_all_heal
+#print axioms Vet.C17_suggestions_serve
+#print axioms Vet.C17_proposed_criteria_cover
